@@ -440,20 +440,24 @@ pub fn run(ctx: &Ctx, rep: &mut Report) {
                     break;
                 }
             }
-            // entry points of the token this workload does not know, tried on cast member #4's
-            // authorisation with what is at hand; whatever they do, the read-back judges
+            // entry points of the token this workload does not know, tried on the authorisation of an
+            // outsider (an account that holds nothing, was never granted an allowance and has no role)
+            // with what is at hand: no correct entry point can move anything for it, so whatever these
+            // calls do, the read-back judges. (An earlier version used a cast member as the signer; an
+            // alias of `transfer` then moved that member's own funds legitimately - DESIGN 10.4.)
             if !unknown_fns.is_empty() {
                 use soroban_sdk::IntoVal;
                 let env = u.env.clone();
+                let outsider = u.principal();
                 let tuples: Vec<soroban_sdk::Vec<soroban_sdk::Val>> = vec![
                     (cast[a].clone(), 5i128).into_val(&env),
                     (cast[a].clone(), cast[b].clone(), 5i128).into_val(&env),
-                    (cast[4].clone(), cast[a].clone(), cast[b].clone(), 5i128).into_val(&env),
-                    (cast[4].clone(), cast[a].clone(), 5i128).into_val(&env),
+                    (outsider.clone(), cast[a].clone(), cast[b].clone(), 5i128).into_val(&env),
+                    (outsider.clone(), cast[a].clone(), 5i128).into_val(&env),
                     (cast[a].clone(),).into_val(&env),
                 ];
-                let by = cast[4].clone();
-                if a != 4 && b != 4 && m.owner != 4 && !m.minters.contains(&4) {
+                let by = outsider.clone();
+                {
                     let n = u.try_unknown(&tok, &unknown_fns, &tuples, &Auth::AllBy(by));
                     rep.count("unknown-entry-point-tried");
                     if n > 0 {
